@@ -1139,11 +1139,18 @@ func par5(c *Ctx) {
 			}
 			end := extractOf(seqCall, 1)
 			// success: eof true edge: end.Terminal = true; Prepare(start)
-			var eofCall *ssa.Call
-			for _, cv := range callsTo(fn, p.eof) {
-				eofCall = cv
+			eofCalls := callsTo(fn, p.eof)
+			// eofAt: some end-of-input test of parse has this outcome at block b (the parser state does not
+			// change between them: parse consumes nothing itself)
+			eofAt := func(want bool, b *ssa.BasicBlock) bool {
+				for _, ec := range eofCalls {
+					if ir.HoldsAt(ec, want, b) {
+						return true
+					}
+				}
+				return false
 			}
-			if eofCall == nil {
+			if len(eofCalls) == 0 {
 				problems = append(problems, "parse does not test for trailing tokens")
 			} else {
 				term, prep := false, false
@@ -1152,12 +1159,12 @@ func par5(c *Ctx) {
 					switch x := in.(type) {
 					case *ssa.Store:
 						if b, f, isF := ir.FieldAddr(x.Addr); isF && f == "Terminal" && b == end {
-							if v, isC := ir.ConstBool(x.Val); isC && v && ir.HoldsAt(eofCall, true, x.Block()) {
+							if v, isC := ir.ConstBool(x.Val); isC && v && eofAt(true, x.Block()) {
 								term = true
 							}
 						}
 					case *ssa.Call:
-						if ir.Static(x) == prepare && prepare != nil && ir.HoldsAt(eofCall, true, x.Block()) {
+						if ir.Static(x) == prepare && prepare != nil && eofAt(true, x.Block()) {
 							prep = true
 						}
 					}
@@ -1172,14 +1179,31 @@ func par5(c *Ctx) {
 				okTrail := false
 				ir.Instrs(fn, func(in ssa.Instruction) {
 					st, ok := in.(*ssa.Store)
-					if !ok || ir.CellAlloc(st.Addr) != errCell || !ir.HoldsAt(eofCall, false, st.Block()) {
+					if !ok || ir.CellAlloc(st.Addr) != errCell || !eofAt(false, st.Block()) {
 						return
 					}
 					if mi, isMI := st.Val.(*ssa.MakeInterface); isMI {
 						if lit, isAl := mi.X.(*ssa.Alloc); isAl && c.isNamed(lit.Type(), "internal/lexer", "ParseError") {
 							f, _ := litFields(lit)
 							if pos := single(f, "Pos"); pos != nil {
+								okPos := false
 								if b, ok := fieldOf(pos, "Pos"); ok && isTokenCall(b, p) {
+									okPos = true
+								}
+								// "the current position": token().Pos where not at the end, len(spec) at the end
+								if phi, isPhi := pos.(*ssa.Phi); isPhi {
+									okPos = true
+									for _, lf := range flattenPhi(phi) {
+										if b, ok := fieldOf(lf.v, "Pos"); ok && isTokenCall(b, p) && eofAt(false, lf.pred) {
+											continue
+										}
+										if lc, ok := lf.v.(*ssa.Call); ok && isLenOfSpec(lc) && eofAt(true, lf.pred) {
+											continue
+										}
+										okPos = false
+									}
+								}
+								if okPos {
 									if in := single(f, "Input"); in != nil && isSpecOfParser(in) {
 										okTrail = true
 									}
